@@ -4,6 +4,10 @@ Run-time vocabulary of the definitions that `extract/tr.go` regenerates from the
 -/
 namespace Agd.TrPrelude
 
+/-- What translated code can observe of a pointer (interface, map, slice, …) to an abstract object:
+whether it is non-nil. -/
+abbrev AbsPtr := Bool
+
 /-- Go's `cmp.Or` over errors: the first non-nil one. -/
 def firstErr : List (Option String) → Option String
   | [] => none
